@@ -1,7 +1,9 @@
 package resolve
 
 import (
+	"context"
 	"encoding/binary"
+	"errors"
 	"sync"
 	"sync/atomic"
 
@@ -98,26 +100,33 @@ func (r *InboundRequestSingleFlight) GetOrCreate(ctx *Context, response *GraphQL
 		ID:   key,
 	}
 
-	shard.mu.Lock()
-	inflight, shared := shard.m.LoadOrStore(key, request)
-	if shared {
-		request = inflight.(*InflightRequest)
-		request.AddFollower()
-	}
-	shard.mu.Unlock()
-	if shared {
-		select {
-		case <-request.Done:
-			if request.Err != nil {
-				return nil, request.Err
-			}
+	for {
+		shard.mu.Lock()
+		inflight, shared := shard.m.LoadOrStore(key, request)
+		var leader *InflightRequest
+		if shared {
+			leader = inflight.(*InflightRequest)
+			leader.AddFollower()
+		}
+		shard.mu.Unlock()
+		if !shared {
 			return request, nil
+		}
+		select {
+		case <-leader.Done:
+			if leader.Err != nil {
+				if errors.Is(leader.Err, context.Canceled) && ctx.ctx.Err() == nil {
+					// The leader was cancelled (its client went away). That says nothing about
+					// this request, so don't inherit the error: try again, possibly as leader.
+					continue
+				}
+				return nil, leader.Err
+			}
+			return leader, nil
 		case <-ctx.ctx.Done():
 			return nil, ctx.ctx.Err()
 		}
 	}
-
-	return request, nil
 }
 
 func (r *InboundRequestSingleFlight) FinishOk(req *InflightRequest, data []byte) {
